@@ -227,10 +227,12 @@ func init() {
 		}
 		jobs = append(jobs, job{cartSpec{0x02, 5, 3}, depth}, job{cartSpec{0x10, 1, 3}, depth}, job{cartSpec{0x1e, 1, 3}, depth - 1},
 			job{cartSpec{0x05, 1, 0}, depth}, job{cartSpec{0x06, 0, 0}, depth}, job{cartSpec{0x00, 0, 0}, 2}, job{cartSpec{0x00, 0, 2}, 2},
-			job{cartSpec{0x00, 1, 0}, 2}, job{cartSpec{0x00, 2, 0}, 2}) // ROM-only type with more ROM declared than the 32 KiB they can address
+			job{cartSpec{0x00, 1, 0}, 2}, job{cartSpec{0x00, 2, 0}, 2}, // ROM-only type with more ROM declared than the 32 KiB they can address
+			// the largest ROMs together with four RAM banks (on MBC1 the same register feeds the upper ROM bits and the RAM bank)
+			job{cartSpec{0x03, 6, 3}, depth}, job{cartSpec{0x13, 6, 3}, depth - 1}, job{cartSpec{0x1b, 8, 3}, depth - 1})
 		explore.Product(c.R, "ram-event-sequences", explore.PartOpt{
 			Bound:  fmt.Sprintf("every sequence up to depth %d (%d for the 64/128 KiB configurations)", depth, depth-1),
-			Domain: "MBC1/MBC3/MBC5 x RAM codes {0,2,3,4,5}, MBC1 large ROM, MBC3+RTC type (with clock registers 08, 0C and the undefined 0D selectable), MBC5 rumble type, MBC2 (two types), ROM-only (32, 64 and 128 KiB images); from power-on and from two non-initial histories (data in three banks then disabled; bank/mode changed while disabled)"},
+			Domain: "MBC1/MBC3/MBC5 x RAM codes {0,2,3,4,5}, MBC1 large ROM, the largest ROM of each controller together with 32 KiB RAM, MBC3+RTC type (with clock registers 08, 0C and the undefined 0D selectable), MBC5 rumble type, MBC2 (two types), ROM-only (32, 64 and 128 KiB images); from power-on and from two non-initial histories (data in three banks then disabled; bank/mode changed while disabled)"},
 			func(yield func(c09Case) bool) {
 				for _, j := range jobs {
 					k, _ := ref.KindOf(j.spec.Type)
